@@ -45,6 +45,9 @@ def tasks(ctx, quick):
         if base["how"] == "carried-natural":
             base["carried"] = rng.choice([1.0, 3.3, 11.0])
         m = i % 6
+        if m == 0 and (i // 6) % 4 == 1:
+            base["how"] = "string-at"
+            base["carried"] = rng.choice([1.0, 3.3, 11.0])
         if m == 0:
             add(dict(base, rel="density", k=rng.choice([0.5, 2.0, 3.7, 10.0, 1e-3, 1e-9, 1e-13, 1e4, rng.uniform(0.1, 9)])))
         elif m == 1:
